@@ -520,8 +520,9 @@ class Run(object):
             self.sweep(t, "add")
         elif op == "add_nonstring":
             what = ev["what"]
-            # a failed add adds nothing: live iterators stay judged; the caller
-            # may retry the very same call at once
+            # the caller may retry the very same call at once; like any mutating
+            # call, a failing one ends the judging of live iterators
+            self.mutation_begins(t)
             for attempt in range(1 + ev.get("retry", 0)):
                 arg = {"none": None, "int": 123, "list": ["a", "b"], "bytes": b"a.b"}[what]
                 raised = None
